@@ -107,6 +107,16 @@ def run(ctx):
         total = sum((len(d_) + ps.slice - 1) // ps.slice for d_ in ps.files.values())
         cases.append({"set": ps, "edit": ("swap", 1, 0), "surv": [True] * ((len(ps.files["f.bin"]) + ps.slice - 1) // ps.slice), "fs": fs, "need": total,
                       "vline": L.line_verify("p2", "mem", ps.index, 1, fs)})
+    # periodic content: the slices "abab","abcd" of "abababcd" both survive, disjoint, when "ab" is prepended ("abab" at 0,
+    # 2 or 4; "abcd" at 6) - but a scan that takes the first match and steps on by a slice takes "abab" at 0 and at 4, and
+    # the latter overlaps the only copy of "abcd".  Judged by an oracle that looks for ANY choice of disjoint occurrences.
+    per = P.PSet({"f.bin": b"abababcd", "other.bin": b"zyxwv"}, 4, 1, g=1, tag="periodic S=4")
+    per.kind = "periodic"
+    for ps, line, i, m in P.create_all(ctx, vh, model, [per]):
+        if ps.created is not None:
+            fs = dict(ps.created); fs[ps.paths["f.bin"]] = b"ab" + ps.files["f.bin"]
+            cases.append({"set": ps, "edit": ("ins", 0, 2), "surv": [True, True], "fs": fs, "need": 4, "disjoint_oracle": True,
+                          "vline": L.line_verify("p2", "mem", ps.index, 1, fs)})
     vi, vm = P.run_both(ctx, vh, model, [c["vline"] for c in cases])
     rep = [0]
 
@@ -138,6 +148,10 @@ def run(ctx):
         # proved scan of the model decides (C16_found's hypothesis), so the oracle is applied to random content only.
         n_other = (len(ps.files["other.bin"]) + ps.slice - 1) // ps.slice
         need = c.get("need", sum(c["surv"]) + n_other)
+        if c.get("disjoint_oracle") and ca["usable"] < need:
+            report("%d slices survive disjointly (for some choice of their occurrences) but only %d are counted usable (%s, edit %s): the scan takes the first match and steps over the rest" %
+                   (need, ca["usable"], ps.tag, c["edit"]), dict(replay, **{"class": {"kind": "greedy-scan-shadowing", "witness": "abababcd/S=4/prepend ab"}}))
+            continue
         if ps.kind == "random" and ca["usable"] < need:
             report("%d slices survive the edit contiguously but only %d are counted usable (%s, edit %s)" %
                    (need, ca["usable"], ps.tag, c["edit"]), replay)
